@@ -64,6 +64,8 @@ type Exec struct {
 
 	stopAtLoopExit []*ssa.BasicBlock
 	loopEntry      map[*ssa.BasicBlock]*State
+	orphans        []*LoopSpec
+	orphanAssigned map[*ssa.BasicBlock]*LoopSpec
 	cloAt          map[*Term]*closureInfo
 	trivialSafety  int
 	boxes          map[*Term]*boxInfo
@@ -394,6 +396,58 @@ func (ex *Exec) havocRanges(st *State, h *ssa.BasicBlock) {
 	}
 }
 
+// Orphaned loop contracts. When part of a function under contract is moved into a helper (a split, or a
+// closure turned into a function), the loop travels with it and the helper has no contract, so it is
+// inlined where it is called. The loop contracts left behind -- ordinals the function under contract no
+// longer has, and the loop contracts of its closures that no longer exist -- are then tried, in order, on
+// the loops of such inlined helpers. The invariants are checked as always: a wrong match cannot prove
+// anything, it can only fail.
+func (ex *Exec) orphanSpecFor(h *ssa.BasicBlock) *LoopSpec {
+	if ex.orphanAssigned == nil {
+		ex.orphanAssigned = map[*ssa.BasicBlock]*LoopSpec{}
+		ex.orphans = ex.eng.orphanLoopSpecs(ex.fn)
+	}
+	if s, ok := ex.orphanAssigned[h]; ok {
+		return s
+	}
+	var s *LoopSpec
+	if len(ex.orphans) > 0 {
+		s = ex.orphans[0]
+		ex.orphans = ex.orphans[1:]
+		ex.note("A-moved-loop: a loop contract written for " + funcShort(ex.fn) + " is applied to a loop that now lives in the inlined helper " + funcShort(h.Parent()))
+	}
+	ex.orphanAssigned[h] = s
+	return s
+}
+
+func (eng *Engine) orphanLoopSpecs(f *ssa.Function) []*LoopSpec {
+	var out []*LoopSpec
+	add := func(fc *FuncContract, have int) {
+		if fc == nil {
+			return
+		}
+		var ords []int
+		for o := range fc.Loops {
+			if o >= have {
+				ords = append(ords, o)
+			}
+		}
+		sort.Ints(ords)
+		for _, o := range ords {
+			out = append(out, fc.Loops[o])
+		}
+	}
+	add(eng.contractFor(f), len(eng.loops(f).heads))
+	key := funcKey(f)
+	for k := 1; k <= 8; k++ {
+		ck := fmt.Sprintf("%s$%d", key, k)
+		if fc := eng.specs.Funcs[ck]; fc != nil && len(eng.funcs[ck]) == 0 {
+			add(fc, 0)
+		}
+	}
+	return out
+}
+
 // enterLoop handles arrival at loop head h from pred.
 // It returns false if the path ends here (back edge).
 func (ex *Exec) enterLoop(st *State, h *ssa.BasicBlock, pred *ssa.BasicBlock) bool {
@@ -403,6 +457,9 @@ func (ex *Exec) enterLoop(st *State, h *ssa.BasicBlock, pred *ssa.BasicBlock) bo
 	var spec *LoopSpec
 	if fc := ex.eng.contractFor(fr.fn); fc != nil && fc.Loops != nil {
 		spec = fc.Loops[ord]
+	}
+	if spec == nil && fr.fn != ex.fn && ex.eng.contractFor(fr.fn) == nil {
+		spec = ex.orphanSpecFor(h)
 	}
 	// evaluate phis for this edge
 	phiVals := map[*ssa.Phi]*Val{}
@@ -737,6 +794,10 @@ func (ex *Exec) execFrom(st *State, b *ssa.BasicBlock, idx int, pred *ssa.BasicB
 					}
 					if c.val != nil {
 						c.st.top().vals[y] = c.val
+						if y.Common().IsInvoke() {
+							// results of interface method calls are nameable too: call_<Method>
+							c.st.top().names["call_"+y.Common().Method.Name()] = namedVal{v: c.val}
+						}
 						if f := y.Common().StaticCallee(); f != nil {
 							c.st.top().names["call_"+f.Name()] = namedVal{v: c.val}
 							if _, seen := c.st.top().names["first_"+f.Name()]; !seen {
